@@ -11,7 +11,9 @@ for p in sorted(glob.glob(os.path.join(VERIF, 'seeded', '*', 'meta.json'))):
     summ = (m.get('summary') or m.get('mechanism') or '')[:170].replace('|', '/').replace('\n', ' ')
     needs = (m.get('needs') or '')[:150].replace('|', '/').replace('\n', ' ')
     hist = 'caught' if m.get('caught') else 'MISSED'
-    if m.get('history') and not any('tool bug' in h for h in m['history']):
+    hh = m.get('history') or []
+    hh = [hh] if isinstance(hh, str) else hh
+    if any('initially MISSED' in h for h in hh) and not any('tool bug' in h for h in hh):
         hist += ' after strengthening'
     rows.append('| %s | %s | %s | %s |' % (name, summ, needs, hist))
 print('| seed | change | needs | ./check %s |' % 'verdict')
